@@ -20,7 +20,7 @@
        is a t_sb_/t_lw_ constant.
 
    Literal texts of the model that correspond to NO template constant (they are plain string literals in the Rust,
-   so there is nothing to compare them with): "/DISCARD/ :", "*(*);", " (NOLOAD) :", "SECTIONS", "{", "}",
+   so there is nothing to compare them with): "/DISCARD/ :", the wildcard discard line, " (NOLOAD) :", "SECTIONS", "{", "}",
    "__romPos", "0x0", "_gp", ".", "0x00000000" (EHex8 0 of a class without address), ".noload", "noload", "alloc",
    "KEEP(", ")", "*", "0" (the address of a single-entry section).  *)
 From Slinky Require Import Model.Types Model.Generated Model.Runtime Model.Style Model.Script Model.Writer.
@@ -299,7 +299,7 @@ Lemma u_lw_end_sections_0 a b :
 Proof. split; [|reflexivity]. unfold_tpl_lw; cbn [fmt render_expr]. rewrite sapp_nil_r. reflexivity. Qed.
 
 (* the /DISCARD/ block: one pattern line per denied section from the template; the header, the braces and the wildcard
-   line "*(*);" are plain literals in the Rust (the wildcard line happens to be the template applied to "*") *)
+   line the wildcard discard line are plain literals in the Rust (the wildcard line happens to be the template applied to "*") *)
 Lemma u_lw_end_sections_1 ind pats wild :
   render_stmt ind (SDiscard pats wild) =
   ([(indent_str ind ++ "/DISCARD/ :")%string; (indent_str ind ++ "{")%string] ++
